@@ -23,8 +23,8 @@ def mapsTo (p : Program) (e : Exc) : Outcome :=
   | some r => r.outcome
   | none => (docDefault e.cls).getD .error
 
-/-- success is reported iff no stage raised, no expectThat mismatched and force_failure is unset
-(2.6-style results also show skip / expected failure as success: not judged here, see C08; a handler
+/-- success is reported iff no stage raised, no expectThat mismatched - in any executed stage, `setUp` included -
+and force_failure is unset (2.6-style results also show skip / expected failure as success: not judged here, see C08; a handler
 function supplied by the user that calls `addSuccess` for its exception is the user's choice) -/
 def cSuccessIff (p : Program) (ff0 : Bool) (t : Trace) : Bool :=
   p.skipDeco.isSome || p.flavour == .py26 || p.userHandlers.any (fun h => h.2.outcome == .success) ||
@@ -48,9 +48,19 @@ def cNoDowngrade (p : Program) (ff0 : Bool) (t : Trace) : Bool :=
      | some o => o.unsuccessful
      | none => false)
 
+/-- a recorded expectation mismatch (an `expectThat` that did not match in any executed stage — `setUp`, the test
+method, `tearDown`, a cleanup — or `force_failure` left set by an earlier run) is reported as a failure, or as the
+error of an exception that has to propagate: never as success, skip, expected failure or unexpected success —
+whatever the stage that recorded it, or a later one, goes on to raise (`setUp` ending in `skipTest` or an expected
+failure included).  Hypothesis: the user inserted no handler of his own that claims the forced `AssertionError` (such
+a handler is arbitrary code; the stock `exception_handlers` map it to `addFailure`). -/
+def cExpectationFails (p : Program) (ff0 : Bool) (t : Trace) : Bool :=
+  p.skipDeco.isSome || !ffNow p ff0 t || (handlerFor p.userHandlers forcedFailure).isSome ||
+    (observed t == some (degrade p.flavour .failure) || observed t == some (degrade p.flavour .error))
+
 def clauses : List (String × (Input → List Trace → Bool)) :=
   [("success-iff-nothing-raised", lift cSuccessIff), ("single-exception-maps", lift cSingle),
-   ("no-downgrade", lift cNoDowngrade)]
+   ("no-downgrade", lift cNoDowngrade), ("expectation-mismatch-fails", lift cExpectationFails)]
 
 def holds (i : Input) (ts : List Trace) : Bool := clauses.all fun c => c.2 i ts
 
